@@ -146,6 +146,13 @@ let handle (line : string) : string =
          the model of the pass itself (coq/OptPass.v) applied to the current grammar must give exactly that table *)
       (match parse_sexp rest with
        | A pass :: L bis :: l ->
+           (* an optional (order id id ...) : the names of the user rules in dict order, for the in-place passes *)
+           let order, l = (match l with
+                           | L (A "order" :: ids) :: l' -> List.map (fun x -> n_of_int (atom_int x)) ids, l'
+                           | _ -> [], l) in
+           let any_id, l = (match l with
+                            | L [A "any"; x] :: l' -> n_of_int (atom_int x), l'
+                            | _ -> n_of_int 1000000, l) in
            let g' = List.map rule_of l in
            let bl = List.map (fun x -> n_of_int (atom_int x)) bis in
            let bi n = List.mem n bl in
@@ -157,6 +164,8 @@ let handle (line : string) : string =
                  (match p with
                   | "unroll" -> Some (pass_unroll bi gcur)
                   | "inline-builtin" -> pass_inline_builtin bi (nat_of_int 200) gcur
+                  | "inline-silent" -> Some (pass_inline_silent bi order gcur)
+                  | "skip" -> pass_skip bi any_id (nat_of_int 200) order gcur
                   | _ -> failwith "U: unknown pass") in
            let model = List.fold_left one (Some !grammar) (String.split_on_char '+' pass) in
            (match model with
